@@ -22,9 +22,21 @@ type plantT struct {
 	cat    string              // a category (or rule id) that contains the planted rule in every version that has it
 	single bool                // value-space operators (many small variations of one edit): ONE configuration per
 	// plant, alternating between "everything enabled" and "the rule's category alone"
+	// twin: where OTHER elements of the same class carry the same simple name (collide.go
+	// twinIndex.class): scope / file / pkg / none
+	twin string
+	fi   int    // file of the planted element (-1: a package-level operator)
+	ep   string // source path of the planted element ("" for file- and package-level operators)
+	ord  int    // ordinal among the plants of the same operator at the same element
+	// double: the operator applied at an element AND at its twin in a copied package
+	double bool
 }
 
 func (p plantT) stratum() string { return p.op + "@" + p.kind }
+
+// twinStratum: selection on the name-collision workspaces is stratified by (operator, where the
+// twins of the planted element are)
+func (p plantT) twinStratum() string { return "C|" + p.op + "@" + p.twin }
 
 // ---- walkers (pre-order, with descriptor source paths) ----
 
@@ -353,12 +365,32 @@ func targets(w *wsT) []int {
 var badComments = [][]string{nil, {""}, {"buf:lint:ignore COMMENT_FIELD"}, {"", "buf:lint:ignore ENUM_PASCAL_CASE and more"}}
 
 // enumerate builds every plant of every operator on w.
-func enumeratePlants(w *wsT, o lintOpts, r *hx.Rand) []plantT {
+func enumeratePlants(w *wsT, o lintOpts, r *hx.Rand, info *collInfo) []plantT {
 	var out []plantT
 	kind := "" // the kind of the element the following add calls target
+	twin := "" // where the twins of that element are (twinIndex.class)
+	ti := buildTwinIndex(w)
+	pathToFile := map[string]int{}
+	for i, f := range w.files {
+		pathToFile[f.path] = i
+	}
+	ords := map[string]int{}
 	add := func(op, at, cat string, mutate func(c *wsT) []expT) {
-		out = append(out, plantT{op: op, kind: kind, at: at, mutate: mutate, cat: cat,
-			single: strings.HasPrefix(op, "PACKAGE_SAME_<OPTION>/") || op == "PACKAGE_VERSION_SUFFIX/near-miss" || op == "PACKAGE_VERSION_SUFFIX/respelled"})
+		p := plantT{op: op, kind: kind, twin: twin, at: at, mutate: mutate, cat: cat, fi: -1,
+			single: strings.HasPrefix(op, "PACKAGE_SAME_<OPTION>/") || op == "PACKAGE_VERSION_SUFFIX/near-miss" || op == "PACKAGE_VERSION_SUFFIX/respelled"}
+		if i := strings.LastIndex(at, ":"); i >= 0 {
+			if fi, ok := pathToFile[at[:i]]; ok {
+				p.fi, p.ep = fi, at[i+1:]
+			}
+		} else if fi, ok := pathToFile[at]; ok {
+			p.fi = fi
+		}
+		p.ord = ords[op+"\x00"+at]
+		ords[op+"\x00"+at]++
+		if p.twin == "" {
+			p.twin = "none"
+		}
+		out = append(out, p)
 	}
 	one := func(rule, file, path string) []expT { return []expT{{rule, file, path}} }
 	badIdx := 0
@@ -376,6 +408,7 @@ func enumeratePlants(w *wsT, o lintOpts, r *hx.Rand) []plantT {
 			if ctx.group != nil {
 				kind = "group-body"
 			}
+			twin = ti.class("msg", m.name, fi, parentOf(nested))
 			get := func(c *wsT) *msgT {
 				var found *msgT
 				c.files[fi].eachMsg(func(q, _ string, mm *msgT) {
@@ -422,6 +455,7 @@ func enumeratePlants(w *wsT, o lintOpts, r *hx.Rand) []plantT {
 				oi := oi
 				op := pk(p, 8, oi)
 				kind = fmt.Sprintf("oneof%d-%s", min(oi, 1), depthKind(ctx.depth))
+				twin = ti.class("oneof", m.oneofs[oi].name, fi, nested)
 				add("ONEOF_LOWER_SNAKE_CASE", f.path+":"+op, "BASIC", func(c *wsT) []expT {
 					get(c).oneofs[oi].name = camel(m.oneofs[oi].name)
 					return one("ONEOF_LOWER_SNAKE_CASE", f.path, op+".1")
@@ -436,9 +470,16 @@ func enumeratePlants(w *wsT, o lintOpts, r *hx.Rand) []plantT {
 		// ---- fields: every kind that NewLintFieldRuleHandler visits (plain, nested-message field,
 		// oneof member, proto3 optional, map, group, group in a oneof, field of a group body,
 		// extension nested in a message, FILE-LEVEL extension whose parent message is nil) ----
+		msgNested := map[*msgT]string{}
+		f.eachMsgCtx(func(_, nested string, m *msgT, _ msgCtx) { msgNested[m] = nested })
 		f.eachField(func(p string, fl *fieldT, m *msgT, isExt bool, depth int) {
 			p, name := p, fl.name
 			kind = fieldKind(fl, m, isExt, depth, proto3)
+			fscope := msgNested[m]
+			if isExt {
+				fscope += "#ext"
+			}
+			twin = ti.class("field", fl.name, fi, fscope)
 			get := func(c *wsT) *fieldT {
 				var found *fieldT
 				c.files[fi].eachField(func(q string, ff *fieldT, _ *msgT, _ bool, _ int) {
@@ -518,6 +559,7 @@ func enumeratePlants(w *wsT, o lintOpts, r *hx.Rand) []plantT {
 			p, nested, name, upper := p, nested, e.name, e.upper
 			enumKind := "enum-" + depthKind(depth) // top = file level, nested-1 = in a top-level message, …
 			kind = enumKind
+			twin = ti.class("enum", e.name, fi, parentOf(nested))
 			get := func(c *wsT) *enumT {
 				var found *enumT
 				c.files[fi].eachEnum(func(q, _ string, ee *enumT) {
@@ -562,6 +604,7 @@ func enumeratePlants(w *wsT, o lintOpts, r *hx.Rand) []plantT {
 				v := e.values[vi]
 				vp := pk(p, 2, vi)
 				kind = enumKind + map[bool]string{true: "-last-value", false: "-value"}[vi > 0 && vi == len(e.values)-1]
+				twin = ti.class("value", v.name, fi, nested)
 				add("COMMENT_ENUM_VALUE", f.path+":"+vp, "COMMENTS", func(c *wsT) []expT {
 					get(c).values[vi].comment = pickBad()
 					return one("COMMENT_ENUM_VALUE", f.path, vp)
@@ -598,6 +641,11 @@ func enumeratePlants(w *wsT, o lintOpts, r *hx.Rand) []plantT {
 						get(c).values[vi].name = "ZZ_" + rest
 						return one("ENUM_VALUE_PREFIX", f.path, vp+".1")
 					})
+					// the prefix in another case: not the prefix (and not UPPER_SNAKE_CASE either)
+					add("ENUM_VALUE_PREFIX/case-only", f.path+":"+vp, "STANDARD", func(c *wsT) []expT {
+						get(c).values[vi].name = strings.ToLower(upper[:1]) + upper[1:] + "_" + rest
+						return []expT{{"ENUM_VALUE_PREFIX", f.path, vp + ".1"}, {"ENUM_VALUE_UPPER_SNAKE_CASE", f.path, vp + ".1"}}
+					})
 					add("ENUM_VALUE_UPPER_SNAKE_CASE", f.path+":"+vp, "BASIC", func(c *wsT) []expT {
 						get(c).values[vi].name = upper + "_" + strings.ToLower(rest[:1]) + rest[1:] + "z"
 						return one("ENUM_VALUE_UPPER_SNAKE_CASE", f.path, vp+".1")
@@ -612,6 +660,7 @@ func enumeratePlants(w *wsT, o lintOpts, r *hx.Rand) []plantT {
 			s := f.svcs[si]
 			sp := pk("6", si)
 			kind = fmt.Sprintf("service%d", min(si, 1))
+			twin = ti.class("svc", s.name, fi, "")
 			add("SERVICE_PASCAL_CASE", f.path+":"+sp, "BASIC", func(c *wsT) []expT {
 				c.files[fi].svcs[si].name = lowerFirst(s.name)
 				return one("SERVICE_PASCAL_CASE", f.path, sp+".1")
@@ -649,6 +698,7 @@ func enumeratePlants(w *wsT, o lintOpts, r *hx.Rand) []plantT {
 				m := s.rpcs[mi]
 				mp := pk(sp, 2, mi)
 				kind = fmt.Sprintf("service%d-rpc%d", min(si, 1), min(mi, 1))
+				twin = ti.class("rpc", m.name, fi, s.name)
 				add("RPC_PASCAL_CASE", f.path+":"+mp, "BASIC", func(c *wsT) []expT {
 					c.files[fi].svcs[si].rpcs[mi].name = lowerFirst(m.name)
 					return one("RPC_PASCAL_CASE", f.path, mp+".1")
@@ -688,6 +738,54 @@ func enumeratePlants(w *wsT, o lintOpts, r *hx.Rand) []plantT {
 						c.renameRefs(fi, m.out.nested, nn)
 						return one("RPC_RESPONSE_STANDARD_NAME", f.path, mp+".3")
 					})
+				}
+				// names that differ from the standard name in the CASE of one letter only, or that merely
+				// START with it: a comparison that folds case or tests a prefix accepts them
+				for _, how := range []string{"case-only", "extended"} {
+					how := how
+					respell := func(n string) string {
+						if how == "extended" {
+							return n + "X"
+						}
+						for i := 1; i < len(n); i++ {
+							if unicode.IsUpper(rune(n[i])) && i+1 < len(n) && unicode.IsLower(rune(n[i+1])) {
+								return n[:i] + strings.ToLower(n[i:i+1]) + n[i+1:]
+							}
+						}
+						return ""
+					}
+					renameTop := func(c *wsT, old, nn string) bool {
+						for i := range c.files[fi].msgs {
+							if c.files[fi].msgs[i].name == nn {
+								return false
+							}
+						}
+						for i := range c.files[fi].msgs {
+							if c.files[fi].msgs[i].name == old {
+								c.files[fi].msgs[i].name = nn
+							}
+						}
+						c.renameRefs(fi, old, nn)
+						return true
+					}
+					if m.in.file == fi && !strings.Contains(m.in.nested, ".") {
+						add("RPC_REQUEST_STANDARD_NAME/"+how, f.path+":"+mp, "STANDARD", func(c *wsT) []expT {
+							nn := respell(m.in.nested)
+							if nn == "" || !renameTop(c, m.in.nested, nn) {
+								return nil
+							}
+							return one("RPC_REQUEST_STANDARD_NAME", f.path, mp+".2")
+						})
+					}
+					if m.out.file == fi && !strings.Contains(m.out.nested, ".") {
+						add("RPC_RESPONSE_STANDARD_NAME/"+how, f.path+":"+mp, "STANDARD", func(c *wsT) []expT {
+							nn := respell(m.out.nested)
+							if nn == "" || !renameTop(c, m.out.nested, nn) {
+								return nil
+							}
+							return one("RPC_RESPONSE_STANDARD_NAME", f.path, mp+".3")
+						})
+					}
 				}
 				if m.in.file == fi && m.out.file == fi {
 					add("RPC_REQUEST_RESPONSE_UNIQUE/same", f.path+":"+mp, "STANDARD", func(c *wsT) []expT {
@@ -781,6 +879,7 @@ func enumeratePlants(w *wsT, o lintOpts, r *hx.Rand) []plantT {
 		}
 
 		// ---- imports ----
+		twin = ""
 		for ii := range f.imports {
 			ii := ii
 			ip := pk("3", ii)
@@ -908,6 +1007,29 @@ func enumeratePlants(w *wsT, o lintOpts, r *hx.Rand) []plantT {
 				return exp
 			})
 		}
+		// directory / package that differ from what they should be in the CASE of one letter only
+		add("PACKAGE_DIRECTORY_MATCH/case-only", f.path, "MINIMAL", func(c *wsT) []expT {
+			g := c.files[fi]
+			g.path = strings.ToUpper(g.path[:1]) + g.path[1:]
+			exp := one("PACKAGE_DIRECTORY_MATCH", g.path, "2")
+			if len(samePkg) > 1 {
+				for _, fj := range samePkg {
+					exp = append(exp, expT{"PACKAGE_SAME_DIRECTORY", c.files[fj].path, "2"})
+				}
+			}
+			return exp
+		})
+		add("DIRECTORY_SAME_PACKAGE/case-only", f.path, "MINIMAL", func(c *wsT) []expT {
+			if len(sameDir) < 2 {
+				return nil
+			}
+			c.files[fi].pkg = strings.ToUpper(f.pkg[:1]) + f.pkg[1:]
+			exp := []expT{{"PACKAGE_DIRECTORY_MATCH", f.path, "2"}, {"PACKAGE_LOWER_SNAKE_CASE", f.path, "2"}}
+			for _, fj := range sameDir {
+				exp = append(exp, expT{"DIRECTORY_SAME_PACKAGE", c.files[fj].path, "2"})
+			}
+			return exp
+		})
 		// the package of one file differs from its directory neighbours in the VERSION component only
 		add("DIRECTORY_SAME_PACKAGE/version-only", f.path, "MINIMAL", func(c *wsT) []expT {
 			if len(sameDir) < 2 {
@@ -924,6 +1046,14 @@ func enumeratePlants(w *wsT, o lintOpts, r *hx.Rand) []plantT {
 			return exp
 		})
 	}
+
+	// ---- request / response types reused across files and packages (collide.go) ----
+	crossFilePlants(w, o, info, func(op, k, at, cat string, mutate func(c *wsT) []expT) {
+		kind, twin = k, k
+		add(op, at, cat, mutate)
+		out[len(out)-1].ep = "" // the expectation depends on the whole workspace: not paired into a double plant
+	})
+	twin = ""
 
 	// ---- whole-package operators (package statement of every file of the package + its directory) ----
 	kind = "package"
@@ -1214,9 +1344,13 @@ func catUse(cat string, v bufconfig.FileVersion) []string {
 var strataDone = map[string]int{}
 
 func selectPlants(plants []plantT, limit int, r *hx.Rand) []plantT {
+	return selectPlantsBy(plants, limit, r, plantT.stratum)
+}
+
+func selectPlantsBy(plants []plantT, limit int, r *hx.Rand, stratum func(plantT) string) []plantT {
 	if len(plants) <= limit {
 		for _, p := range plants {
-			strataDone[p.stratum()]++
+			strataDone[stratum(p)]++
 		}
 		return plants
 	}
@@ -1226,7 +1360,7 @@ func selectPlants(plants []plantT, limit int, r *hx.Rand) []plantT {
 	take := func(i int) {
 		taken[i] = true
 		keep = append(keep, plants[i])
-		strataDone[plants[i].stratum()]++
+		strataDone[stratum(plants[i])]++
 	}
 	// at least one plant of every operator in every workspace
 	seen := map[string]bool{}
@@ -1240,7 +1374,7 @@ func selectPlants(plants []plantT, limit int, r *hx.Rand) []plantT {
 	for len(keep) < limit {
 		best := -1
 		for i, p := range plants {
-			if !taken[i] && (best < 0 || strataDone[p.stratum()] < strataDone[plants[best].stratum()]) {
+			if !taken[i] && (best < 0 || strataDone[stratum(p)] < strataDone[stratum(plants[best])]) {
 				best = i
 			}
 		}
@@ -1252,15 +1386,90 @@ func selectPlants(plants []plantT, limit int, r *hx.Rand) []plantT {
 	return keep
 }
 
-func plantAll(run *hx.Run, l *linter, r *hx.Rand, w *wsT, o lintOpts, wi int, replay string) {
-	plants := enumeratePlants(w, o, r)
-	run.CountN("B:plants:enumerated", len(plants))
-	for _, p := range plants {
-		run.CountN("B:stratum-available:"+p.stratum(), 1)
+// twinRank orders the strata of a name-collision workspace by what the family is about: an RPC pair
+// with equal service and RPC names first, then equal RPC or service names, then elements whose name
+// twin sits in another scope / file, then elements with a twin in another package, last the rest.
+func twinRank(p plantT) int {
+	switch {
+	case strings.Contains(p.twin, "same-service-and-rpc-name"):
+		return 0
+	case strings.Contains(p.twin, "same-rpc-name") || strings.Contains(p.twin, "same-service-name"):
+		return 1
+	case strings.HasPrefix(p.twin, "scope") || strings.HasPrefix(p.twin, "file"):
+		return 2
+	case p.twin == "none":
+		return 4
 	}
-	plants = selectPlants(plants, run.N(90, 250), r)
+	return 3
+}
+
+// selectCollision: always the least covered (operator, twin class) stratum, ties by twinRank.
+func selectCollision(plants []plantT, limit int, r *hx.Rand) []plantT {
+	hx.Shuffle(r, plants)
+	taken := make([]bool, len(plants))
+	var keep []plantT
+	for len(keep) < limit {
+		best := -1
+		for i, p := range plants {
+			if taken[i] {
+				continue
+			}
+			if best < 0 {
+				best = i
+				continue
+			}
+			di, db := strataDone[p.twinStratum()], strataDone[plants[best].twinStratum()]
+			if di < db || (di == db && twinRank(p) < twinRank(plants[best])) {
+				best = i
+			}
+		}
+		if best < 0 {
+			break
+		}
+		taken[best] = true
+		keep = append(keep, plants[best])
+		strataDone[plants[best].twinStratum()]++
+	}
+	return keep
+}
+
+func plantAll(run *hx.Run, l *linter, r *hx.Rand, w *wsT, o lintOpts, wi int, replay string, info *collInfo) {
+	plants := enumeratePlants(w, o, r, info)
+	run.CountN("B:plants:enumerated", len(plants))
+	if info == nil {
+		for _, p := range plants {
+			run.CountN("B:stratum-available:"+p.stratum(), 1)
+		}
+		plants = selectPlants(plants, run.N(94, 250), r)
+	} else {
+		// name-collision workspace: every operator once, then the least covered (operator, twin class)
+		// first; then the same operator at both twins, the least covered operator first
+		doubles := doublePlants(w, info, plants)
+		for _, p := range plants {
+			run.CountN("C:stratum-available:"+p.op+"@"+p.twin, 1)
+		}
+		run.CountN("C:doubles:enumerated", len(doubles))
+		plants = selectCollision(plants, run.N(88, 220), r)
+		hx.Shuffle(r, doubles)
+		nd := 0
+		for len(doubles) > 0 && nd < run.N(24, 80) {
+			best := 0
+			for i, d := range doubles {
+				if strataDone["D|"+d.op] < strataDone["D|"+doubles[best].op] {
+					best = i
+				}
+			}
+			strataDone["D|"+doubles[best].op]++
+			plants = append(plants, doubles[best])
+			doubles = append(doubles[:best], doubles[best+1:]...)
+			nd++
+		}
+	}
 	for pi, p := range plants {
 		what := fmt.Sprintf("workspace %d, plant %s at %s (%s)", wi, p.op, p.at, p.kind)
+		if info != nil {
+			what = fmt.Sprintf("name-collision workspace %d, plant %s at %s (%s; same name elsewhere: %s)", wi, p.op, p.at, p.kind, p.twin)
+		}
 		pw := w.clone()
 		expect := p.mutate(pw)
 		if expect == nil {
@@ -1282,17 +1491,25 @@ func plantAll(run *hx.Run, l *linter, r *hx.Rand, w *wsT, o lintOpts, wi int, re
 			continue
 		}
 		run.Count("B:plant:" + p.op)
-		run.Count("B:stratum:" + p.stratum())
+		if info == nil {
+			run.Count("B:stratum:" + p.stratum())
+		} else if p.double {
+			run.Count("C:double:" + p.op)
+		} else {
+			run.Count("C:stratum:" + p.op + "@" + p.twin)
+		}
 		v := versions[(wi+pi)%3]
 		// PROTOVALIDATE (CEL set-up, ~65 ms per call) stays enabled on every eighth plant only
 		var except []string
 		if pi%8 != 0 && v != bufconfig.FileVersionV1Beta1 {
 			except = []string{"PROTOVALIDATE"}
 		}
-		if !p.single || pi%2 == 0 {
+		// name-collision workspaces (10 files): ONE configuration per plant in the quick tier
+		single := p.single || (info != nil && run.Tier == "quick")
+		if !single || pi%2 == 0 {
 			judge(run, l, pw, b, lintCfg{v, allUse(v), o, except}, what, expect, replay)
 		}
-		if p.single && pi%2 == 0 {
+		if single && pi%2 == 0 {
 			continue
 		}
 		v2 := versions[(wi+pi+1)%3]
